@@ -247,6 +247,16 @@ def run_case(c, d):
                 ref, _ = ref_periodogram(x[:, j], w, NFFT)
                 c.compare('speriodogram:2d-is-column-wise', np.asarray(r1)[:, j], ref, TOL, dict(feats, cols=x.shape[1]),
                           scale=float(np.max(ref)) or 1.0, detail={'column': j, 'N': N, 'NFFT': NFFT, 'window': name})
+            if d.get('i', 0) % 3 == 0:
+                # the class accepts the same 2-D input (one record per column)
+                try:
+                    pc = spectrum.Periodogram(x, window=name, NFFT=NFFT, scale_by_freq=False)
+                    got = np.asarray(pc.psd)
+                except Exception as exc:
+                    c.exception('Periodogram', exc, dict(feats, form='class2d'))
+                    return
+                c.compare('Periodogram(2d).psd-equals-the-function', got, np.asarray(r1), 0.0, dict(feats, form='class2d'),
+                          scale=float(np.max(np.abs(r1))) or 1.0, detail={'N': N, 'NFFT': NFFT, 'window': name})
         return
     # class form (+ recomputation after an NFFT change on the same object)
     try:
